@@ -60,6 +60,14 @@ CHECKS["C08"] = ("libspace", "model_checking",
    "bounded exhaustive exploration: every library of the libspace alphabet x the first link of the owner note as rename site x every new name (free, taken, in a sub-directory, from root and from a sub-directory) is answered by the real rename handler; the WorkspaceEdit is applied to a copy of the library by an independent applier and the result is re-scanned with the independent link scanner / resolver (old key gone, new note with equal content, every link to the old key follows, every other link resolves as before, unrelated notes byte-identical, taken name refused)",
    "the new name is accepted as library-relative or relative to the issuing note's directory; only what links resolve to is compared for rewritten notes, not their formatting",
    "explicit-state enumeration of configurations x operations against the implementation with a reference-model oracle", "§5 C08")
+CHECKS["C09"] = ("actions", "model_checking",
+   "bounded exhaustive exploration: every block forest up to the bound (sections, code, tables, block references to existing / missing / the same / another-directory notes, lists, quotes) as a root note and as a note in a sub-directory x every line x every offered extract / inline action is resolved by the real Server; the edit is applied by an independent applier and the library before/after is compared through the independent content extractor and link resolver (fresh keys, top-level headings, exactly +1 / -1 reference, nothing else lost or duplicated, links resolve to the same notes from their new place, extract-then-inline restores the formatted original)",
+   "content leaves via R1 (levels / markers / position are presentation); production key generation (random keys)",
+   "explicit-state enumeration of inputs x cursor lines x operations against the implementation with a reference-model oracle", "§5 C09")
+CHECKS["C10"] = ("actions", "model_checking",
+   "bounded exhaustive exploration: every block forest up to the bound x every line x every offered section-to-list / list-to-sections / change-list-type action on the real Server; the sequence of content leaves must be unchanged, only the note itself may be rewritten, and the inverse action applied to the result must give the formatted original byte-for-byte (where the statement promises it)",
+   "content leaves via R1 in document order with headings and item texts identified",
+   "explicit-state enumeration of inputs x cursor lines x operation pairs against the implementation", "§5 C10")
 NOT_APPLICABLE = {}
 manifest = {
  "version": 1,
@@ -79,6 +87,7 @@ manifest = {
    {"name": "positions", "path": "/verif/mc/src/engines/positions.rs", "serves_properties": ["C13"], "kind_free_text": "sweeps every cursor position of documents with CRLF / non-ASCII prefixes through the real position-based handlers"},
    {"name": "paths", "path": "/verif/mc/src/engines/paths.rs", "serves_properties": ["C15"], "kind_free_text": "round-trip laws of relative link arithmetic over all path shapes up to a depth"},
    {"name": "names", "path": "/verif/mc/src/engines/names.rs", "serves_properties": ["C14"], "kind_free_text": "writes libraries with awkward file names / base paths to disk and drives the real loader + server through file URIs"},
+   {"name": "actions", "path": "/verif/mc/src/engines/actions.rs", "serves_properties": ["C09","C10"], "kind_free_text": "sweeps every line of every block-grammar note through codeAction + resolve on the real server and applies the edits to a copy of the library"},
    {"name": "docspace", "path": "/verif/mc/src/engines/docs.rs", "serves_properties": ["C01","C02","C03","C07"], "kind_free_text": "enumerates documents from a token alphabet / block grammar / inline grammar and runs the real formatter and server on each"},
  ],
  "checks": [],
